@@ -51,9 +51,10 @@ def run(prop, tier, seed, repo):
             sessions.append({"tid": i + 1, "names": [g["name"] for g in c["games"]],
                              "kinds": [g["kind"] for g in c["games"]], "file": c["file"],
                              "tgs": [g["tg"] for g in c["games"]], "style": i % 2,
+                             "uni": i % 4 == 3,      # non-ASCII game and action names (UTF-8 file)
                              "flags": [g.get("ps", "none") for g in c["games"]]})
         jobs = [{"kind": "batch", "names": s["names"], "tgs": s["tgs"], "file": s["file"], "style": s["style"],
-                 "dotslash": s["tid"] % 3 == 0, "flags": s["flags"], "budget": 120.0} for s in sessions]
+                 "dotslash": s["tid"] % 3 == 0, "flags": s["flags"], "uni": s["uni"], "budget": 120.0} for s in sessions]
         t1 = time.time()
         results = pool.run_jobs(jobs, repo, budget=120.0)
         for s, (events, status) in zip(sessions, results):
@@ -105,7 +106,7 @@ def run(prop, tier, seed, repo):
                 res.add_violation("; ".join(sorted(bad)),
                                   {"kind": "batch", "property": prop, "names": s["names"], "kinds": s["kinds"],
                                    "tgs": s["tgs"], "file": s["file"], "style": s["style"], "flags": s["flags"],
-                                   "fails": sorted(bad)})
+                                   "uni": s["uni"], "fails": sorted(bad)})
         mc(res, tier)
         cov = res.coverage
         cov["evaluations"] = len(sessions)
@@ -133,7 +134,7 @@ def run(prop, tier, seed, repo):
 
 def replay(rep, repo):
     job = {"kind": "batch", "names": rep["names"], "tgs": rep["tgs"], "file": rep["file"], "style": rep["style"],
-           "flags": rep.get("flags", [])}
+           "flags": rep.get("flags", []), "uni": rep.get("uni", False)}
     (events, status), = pool.run_jobs([job], repo, nproc=1, budget=120.0)
     ev = events[0] if events else {}
     print("names:", rep["names"], "kinds:", rep["kinds"], status)
